@@ -157,6 +157,13 @@ func NewLinearFeeFunction(maxFeeRate chainfee.SatPerKWeight,
 	// Calculate how much fee rate should be increased per block.
 	end := l.endingFeeRate
 
+	// The starting fee rate must not exceed the ending fee rate, otherwise
+	// the function would start above its ceiling and decrease afterwards.
+	if start > end {
+		return nil, fmt.Errorf("start fee rate %v is greater than end "+
+			"fee rate %v", start, end)
+	}
+
 	// The starting and ending fee rates are in sat/kw, so we need to
 	// convert them to msat/kw by multiplying by 1000.
 	delta := btcutil.Amount(end - start).MulF64(1000 / float64(l.width))
